@@ -19,18 +19,18 @@ func point(kind string, p interface{}) {
 	}
 }
 
-func AddInt32(p *int32, d int32) int32      { point("add", p); return atomic.AddInt32(p, d) }
-func LoadInt32(p *int32) int32              { point("load", p); return atomic.LoadInt32(p) }
-func StoreInt32(p *int32, v int32)          { point("store", p); atomic.StoreInt32(p, v) }
-func AddUint32(p *uint32, d uint32) uint32  { point("add", p); return atomic.AddUint32(p, d) }
-func LoadUint32(p *uint32) uint32           { point("load", p); return atomic.LoadUint32(p) }
-func StoreUint32(p *uint32, v uint32)       { point("store", p); atomic.StoreUint32(p, v) }
-func AddUint64(p *uint64, d uint64) uint64  { point("add", p); return atomic.AddUint64(p, d) }
-func LoadUint64(p *uint64) uint64           { point("load", p); return atomic.LoadUint64(p) }
-func StoreUint64(p *uint64, v uint64)       { point("store", p); atomic.StoreUint64(p, v) }
-func AddInt64(p *int64, d int64) int64      { point("add", p); return atomic.AddInt64(p, d) }
-func LoadInt64(p *int64) int64              { point("load", p); return atomic.LoadInt64(p) }
-func StoreInt64(p *int64, v int64)          { point("store", p); atomic.StoreInt64(p, v) }
+func AddInt32(p *int32, d int32) int32     { point("add", p); return atomic.AddInt32(p, d) }
+func LoadInt32(p *int32) int32             { point("load", p); return atomic.LoadInt32(p) }
+func StoreInt32(p *int32, v int32)         { point("store", p); atomic.StoreInt32(p, v) }
+func AddUint32(p *uint32, d uint32) uint32 { point("add", p); return atomic.AddUint32(p, d) }
+func LoadUint32(p *uint32) uint32          { point("load", p); return atomic.LoadUint32(p) }
+func StoreUint32(p *uint32, v uint32)      { point("store", p); atomic.StoreUint32(p, v) }
+func AddUint64(p *uint64, d uint64) uint64 { point("add", p); return atomic.AddUint64(p, d) }
+func LoadUint64(p *uint64) uint64          { point("load", p); return atomic.LoadUint64(p) }
+func StoreUint64(p *uint64, v uint64)      { point("store", p); atomic.StoreUint64(p, v) }
+func AddInt64(p *int64, d int64) int64     { point("add", p); return atomic.AddInt64(p, d) }
+func LoadInt64(p *int64) int64             { point("load", p); return atomic.LoadInt64(p) }
+func StoreInt64(p *int64, v int64)         { point("store", p); atomic.StoreInt64(p, v) }
 func CompareAndSwapUint32(p *uint32, o, n uint32) bool {
 	point("cas", p)
 	return atomic.CompareAndSwapUint32(p, o, n)
@@ -62,3 +62,77 @@ func (x *Bool) Store(b bool) {
 
 // Value is the real atomic.Value.
 type Value = atomic.Value
+
+func (x *Bool) Swap(b bool) bool {
+	var n uint32
+	if b {
+		n = 1
+	}
+	point("swap", &x.v)
+	return atomic.SwapUint32(&x.v, n) != 0
+}
+
+func (x *Bool) CompareAndSwap(o, n bool) bool {
+	var ou, nu uint32
+	if o {
+		ou = 1
+	}
+	if n {
+		nu = 1
+	}
+	return CompareAndSwapUint32(&x.v, ou, nu)
+}
+
+func CompareAndSwapInt64(p *int64, o, n int64) bool {
+	point("cas", p)
+	return atomic.CompareAndSwapInt64(p, o, n)
+}
+
+func CompareAndSwapUint64(p *uint64, o, n uint64) bool {
+	point("cas", p)
+	return atomic.CompareAndSwapUint64(p, o, n)
+}
+func SwapInt32(p *int32, n int32) int32     { point("swap", p); return atomic.SwapInt32(p, n) }
+func SwapInt64(p *int64, n int64) int64     { point("swap", p); return atomic.SwapInt64(p, n) }
+func SwapUint32(p *uint32, n uint32) uint32 { point("swap", p); return atomic.SwapUint32(p, n) }
+func SwapUint64(p *uint64, n uint64) uint64 { point("swap", p); return atomic.SwapUint64(p, n) }
+
+func (x *Int32) Swap(n int32) int32 { return SwapInt32(&x.v, n) }
+
+// Int64 mirrors atomic.Int64.
+type Int64 struct{ v int64 }
+
+func (x *Int64) Load() int64                    { return LoadInt64(&x.v) }
+func (x *Int64) Store(v int64)                  { StoreInt64(&x.v, v) }
+func (x *Int64) Add(d int64) int64              { return AddInt64(&x.v, d) }
+func (x *Int64) Swap(n int64) int64             { return SwapInt64(&x.v, n) }
+func (x *Int64) CompareAndSwap(o, n int64) bool { return CompareAndSwapInt64(&x.v, o, n) }
+
+// Uint32 mirrors atomic.Uint32.
+type Uint32 struct{ v uint32 }
+
+func (x *Uint32) Load() uint32                    { return LoadUint32(&x.v) }
+func (x *Uint32) Store(v uint32)                  { StoreUint32(&x.v, v) }
+func (x *Uint32) Add(d uint32) uint32             { return AddUint32(&x.v, d) }
+func (x *Uint32) Swap(n uint32) uint32            { return SwapUint32(&x.v, n) }
+func (x *Uint32) CompareAndSwap(o, n uint32) bool { return CompareAndSwapUint32(&x.v, o, n) }
+
+// Uint64 mirrors atomic.Uint64.
+type Uint64 struct{ v uint64 }
+
+func (x *Uint64) Load() uint64                    { return LoadUint64(&x.v) }
+func (x *Uint64) Store(v uint64)                  { StoreUint64(&x.v, v) }
+func (x *Uint64) Add(d uint64) uint64             { return AddUint64(&x.v, d) }
+func (x *Uint64) Swap(n uint64) uint64            { return SwapUint64(&x.v, n) }
+func (x *Uint64) CompareAndSwap(o, n uint64) bool { return CompareAndSwapUint64(&x.v, o, n) }
+
+// Pointer mirrors atomic.Pointer.
+type Pointer[T any] struct{ p atomic.Pointer[T] }
+
+func (x *Pointer[T]) Load() *T     { point("load", x); return x.p.Load() }
+func (x *Pointer[T]) Store(v *T)   { point("store", x); x.p.Store(v) }
+func (x *Pointer[T]) Swap(n *T) *T { point("swap", x); return x.p.Swap(n) }
+func (x *Pointer[T]) CompareAndSwap(o, n *T) bool {
+	point("cas", x)
+	return x.p.CompareAndSwap(o, n)
+}
